@@ -396,5 +396,6 @@ func genC18() {
 		}
 		g.def(it[1], "nat", fmt.Sprintf("%d", v), "maxLinks in "+it[0])
 	}
+	c18MoreDefs(g)
 	g.write()
 }
